@@ -84,6 +84,7 @@ RULES: Dict[str, Dict[str, Any]] = {
     PJ + "numpy/einsum.py": dict(spec=Spec("einsum", {"equation": "equation"}, orig={}, orig_pos=("equation",), const={"_stretch_names": {7: "B"}}), dom="none", param="-", operands="einsum"),
     PJ + "numpy/tile.py": dict(spec=Spec("tile", {"reps": "reps", "repeats": "reps"}), dom="reps", param="reps"),
     PE + "group_norm.py": dict(spec=Spec("preserve", {"channel_axis": "axis"}), dom="axis", param="channel_axis", operands="x+params", extra={"batch_rank": 0, "num_groups": 1, "epsilon": 1e-5}),
+    PE + "multihead_attention.py": dict(spec=Spec("trailing_all", {}), dom="none", param="-", operands="mha"),
     PJ + "numpy/linspace.py": dict(spec=Spec("linspace", {"axis": "axis"}), dom="axis_out", param="axis", operands="linspace"),
 }
 
@@ -219,6 +220,11 @@ def _cases(entry: Dict[str, Any], fi: FuncInfo) -> Iterable[Tuple[List[Optional[
                     n_ops = len(st.targets[0].elts[0].elts)
             W = tuple(f"w{i}" for i in range(r))
             ops = [([L] + [W] * (n_ops - 1), [[bd] + [None] * (n_ops - 1) for bd in range(r + 1)])]
+        elif kind_ops == "mha":
+            if r != 2:
+                continue
+            W = ("w0", "w1")
+            ops = [([L, L, L] + [W] * 8, [[bd, bd, bd] + [None] * 8 for bd in range(r + 1)])]
         elif kind_ops == "two-any":
             ops = [([L, L], [[b0, b1] for b0 in list(range(r + 1)) + [None] for b1 in list(range(r + 1)) + [None] if not (b0 is None and b1 is None)])]
         elif kind_ops == "pair":
